@@ -100,6 +100,15 @@ def eval_block(block, acc):
         for data in streams.iter_block(tuple(block[1]) if block[1][0] == "short" else ("pre", block[1][1], block[1][2])):
             for cfg in CFGS:
                 judge_stream(data, cfg, None, acc, {"stream": data.hex()})
+    elif block[0] == "long":
+        L = block[1]
+        seqs = [(L,)] + [(a, L) for a in streams.LONG_NEIGHBOURS] + [(L, b) for b in streams.LONG_NEIGHBOURS]
+        for seq in seqs:
+            data = streams.seq_bytes(seq)
+            for cfg in CFGS[:2] if len(data) > 2000 else CFGS:
+                ce = clean_ends_of(seq, cfg)
+                judge_stream(data, cfg, ce, acc, {"stream": data.hex(), "tokens": list(seq), "clean_ends": ce})
+        return
     else:
         _, first, k = block
         seqs = [()] if first is None else ((first,) + t for t in streams.token_seqs(k - 1, ALPHABET))
@@ -119,6 +128,7 @@ def run_tier(tier, t0):
     L, k = (6, 3) if q else (7, 4)
     blocks = [("bytes", list(b)) for b in streams.byte_blocks(L)]
     blocks += [("tokens", None, 0)] + [("tokens", f, k) for f in ALPHABET]
+    blocks += [("long", L) for L in streams.LONG_NAMES]
     if not q:
         # depth 4 restricted to frame tokens (clean and rejected), all cuts
         pass
